@@ -310,6 +310,15 @@ func c17Run(c *Ctx) {
 			}
 		}
 	}
+	if c.K%37 == 11 {
+		// one entry far wider than any terminal (and than any fixed padding buffer): the common column still holds
+		for _, o := range d.Opts {
+			if !o.T.IsFlag() && !o.Hidden && o.Cmd == d.Root && !o.Grp.Hidden {
+				o.ValueName = "V" + strings.Repeat("w", r.Range(250, 340))
+				break
+			}
+		}
+	}
 	b := d.Build()
 	if b.Err != nil {
 		c.Unspec("declaration rejected (name collision after renaming): " + errTypeName(b.Err))
